@@ -335,6 +335,9 @@ const DIRECTED: &[(&str, &str, &str)] = &[
     ("failing_argument_of_a_variadic_call", "(module) { node n attr (n) v = (plus 1 (plus 4294967295 1)), w = (and #true (not 5)), x = (concat [1] (concat 5)), y = (join [1, 2, 3] (format \"{}\")) }", "pass\n"),
     ("failing_call_in_print_argument", "(identifier) @id { print (plus @id 1), (no-such-function @id) print @id.never }", "x = y\n"),
     ("four_captures_on_a_plus_quantified_node", "(identifier)+ @a @b @c @d { node n attr (n) la = (length @a), ld = (length @d) for x in @d { print x } }", "x = y\nz\n"),
+    ("four_captures_on_an_inner_plus_quantified_node", "(module (expression_statement (identifier)+ @a @b @c @d)) { node n attr (n) a = (length @a), b = (length @b), c = (length @c), d = (length @d) for x in @d { print x } }", "x\ny\nz\n"),
+    ("four_captures_on_an_inner_node", "(module (expression_statement (identifier) @a @b @c @d)) { node n attr (n) a = @a, d = @d }", "x\ny\n"),
+    ("four_captures_on_an_inner_optional_node", "(return_statement (identifier)? @a @b @c @d) { node n attr (n) a = @a, d = @d if some @d { print @d } }", "def f():\n    return x\n    return\n"),
     ("plus_after_capture_of_optional_pattern", "(assignment left: (_) @lhs right: (_)? @rhs+) { node n attr (n) l = (source-text @lhs) print @rhs }", "with a as b, c as d:\n    match = b\nwhile x: x = x - 1\n"),
     ("plus_on_top_of_star_quantifier", "(identifier)*+ @xs { node n attr (n) x = @xs }", "x = y\n"),
 ];
